@@ -40,7 +40,7 @@ ASSUMPTIONS = [
 
 
 def GATES(tier):
-    return [("ops_judged", 500), ("walks", 500), ("attrs_checked", 2000), ("single_fault_judged", 100), ("single_fault_rejected", 50), ("bad_default_routes", 20),
+    return [("ops_judged", 500), ("walks", 500), ("attrs_checked", 2000), ("single_fault_judged", 100), ("single_fault_rejected", 50), ("bad_default_routes", 20), ("bounded_outside_values_judged", 300),
             ("equal_value_other_type_cases", 10), ("transform_result_sweep", 200), ("slot:dictkey", 5), ("slot:elem", 20), ("slot:leafattr", 10), ("slot:attr", 50)]
 
 
@@ -146,9 +146,87 @@ def directed_bad_defaults(ctx):
                                       features={"phase": "bad_default", "route": label.split("(")[0], "cls": cname, "lazy": not boot}, case=["bad_default", cname, label, boot])
 
 
+BOUNDED_SRC = """
+from typing import Dict, List
+from spec_classes import spec_class
+from spec_classes.types import bounded
+
+Closed = bounded(float, ge=0, le=1)
+Open = bounded(float, gt=0, lt=1)
+
+@spec_class(bootstrap={boot})
+class B:
+    ratio: {T} = 0.5
+    weights: List[{T}] = [0.25]
+    shares: Dict[str, {T}] = {{"k": 0.75}}
+"""
+
+
+def directed_bounded_values(ctx):
+    """Attributes, list elements and dict values declared with a validated (bounded) float type: numbers that are within no
+    bound - NaN (every comparison with it is false), the infinities, values just outside - must be refused on every route or
+    leave a conforming state. The oracle is the bound written out as plain comparisons, not the library's check."""
+    nan, inf = float("nan"), float("inf")
+    outside = [("nan", nan), ("inf", inf), ("-inf", -inf), ("1.5", 1.5), ("-0.1", -0.1), ("1.0000001", 1.0000001)]
+    within = {"Closed": lambda v: isinstance(v, (int, float)) and 0 <= v <= 1, "Open": lambda v: isinstance(v, (int, float)) and 0 < v < 1}
+
+    def setattr_(o, v):
+        o.ratio = v
+        return o
+
+    routes = [
+        ("B(ratio=v)", lambda B, v: B(ratio=v)),
+        ("B(weights=[0.5, v])", lambda B, v: B(weights=[0.5, v])),
+        ("B(shares={'a': v})", lambda B, v: B(shares={"a": v})),
+        ("x.ratio = v", lambda B, v: setattr_(B(), v)),
+        ("x.with_ratio(v)", lambda B, v: B().with_ratio(v)),
+        ("x.with_ratio(v, _inplace=True)", lambda B, v: B().with_ratio(v, _inplace=True)),
+        ("x.transform_ratio(-> v)", lambda B, v: B().transform_ratio(lambda r: v)),
+        ("x.update(ratio=v)", lambda B, v: B().update(ratio=v)),
+        ("x.transform(ratio=-> v, _inplace=True)", lambda B, v: B().transform(ratio=lambda r: v, _inplace=True)),
+        ("x.with_weights([0.5, v])", lambda B, v: B().with_weights([0.5, v])),
+        ("x.with_weight(v)", lambda B, v: B().with_weight(v)),
+        ("x.with_weight(v, _index=0, _insert=True)", lambda B, v: B().with_weight(v, _index=0, _insert=True)),
+        ("x.with_weight(v, _index=0, _inplace=True)", lambda B, v: B().with_weight(v, _index=0, _inplace=True)),
+        ("x.transform_weight(0, -> v, _by_index=True)", lambda B, v: B().transform_weight(0, lambda w: v, _by_index=True)),
+        ("x.with_share('a', v)", lambda B, v: B().with_share("a", v)),
+        ("x.transform_share('k', -> v)", lambda B, v: B().transform_share("k", lambda w: v)),
+        ("x.with_share('k', v, _inplace=True)", lambda B, v: B().with_share("k", v, _inplace=True)),
+        ("x.update(shares={'a': v})", lambda B, v: B().update(shares={"a": v})),
+    ]
+    for boot in (True, False):
+        for tname, ok in within.items():
+            B = cg.exec_module(BOUNDED_SRC.format(boot=boot, T=tname), prefix="verif_c03b").__dict__["B"]
+            for label, fn in routes:
+                for vname, v in outside + [("0.5", 0.5)]:
+                    ctx.count("ops_judged")
+                    ctx.count("bounded_value_routes")
+                    try:
+                        res, outcome = fn(B, v), "returned"
+                    except (TypeError, ValueError):
+                        res, outcome = None, "rejected"
+                    except Exception as e:
+                        res, outcome = None, f"raised {type(e).__name__}"
+                    ctx.sig("bounded_value", tname, label, vname, outcome)
+                    if vname == "0.5":
+                        if outcome != "returned":
+                            ctx.violation("stored_value_conforms", f"[directed] {label} with v = 0.5 on B declared with {tname} = bounded(float, ...) was {outcome}: a conforming value must be accepted",
+                                          features={"phase": "bounded_value", "route": label, "value": vname, "type": tname, "lazy": not boot}, case=["bounded_value", tname, label, vname, boot])
+                        continue
+                    ctx.count("bounded_outside_values_judged")
+                    if res is None:
+                        continue
+                    held = [("ratio", res.__dict__.get("ratio", 0.5))] + [(f"weights[{i}]", w) for i, w in enumerate(res.__dict__.get("weights", []))] + [(f"shares[{k!r}]", w) for k, w in res.__dict__.get("shares", {}).items()]
+                    bad = [(where, w) for where, w in held if not ok(w)]
+                    if bad:
+                        ctx.violation("stored_value_conforms", f"[directed] {label} with v = {vname} on B declared with {tname} = bounded(float, {'ge=0, le=1' if tname == 'Closed' else 'gt=0, lt=1'}) {outcome}: B.{bad[0][0]} now holds {bad[0][1]!r}, which is within no such bound",
+                                      features={"phase": "bounded_value", "route": label, "value": vname, "type": tname, "lazy": not boot}, case=["bounded_value", tname, label, vname, boot])
+
+
 def run(ctx, params):
     if params.get("directed"):
-        return directed_bad_defaults(ctx)
+        directed_bad_defaults(ctx)
+        return directed_bounded_values(ctx)
     rng = ctx.rng
     for ci in range(params["cases"]):
         decl = cg.gen_module(rng, {"frozen": False})
